@@ -9,7 +9,7 @@ RULE = ('group_by(km, inner) with key mappers whose values are equal but not ide
         'ints > 10**20 computed at run time, strings built at run time, floats, 1/1.0/True), 1-40 distinct keys, at top '
         'level on 1-3 interleaved outer keys, under group_by/roll/split, with inner pipelines tapped at their head. Oracle: '
         'each inner lifetime receives exactly the subsequence of items with an == key, one group per distinct key, flush '
-        'in first-appearance order. non-trivial = >= 2 groups and >= 1 group with >= 2 items; distinct = distinct JSON')
+        'in first-appearance order. a scale family: hundreds of groups under one parent (revisited after more than 256 groups exist), hundreds of live parents, long groups. non-trivial = >= 2 groups and >= 1 group with >= 2 items; distinct = distinct JSON')
 ASSUMPTIONS = ['key values are hashable and == is an equivalence on them (no NaN keys)']
 
 KEYS = [['mod', 2], ['mod', 3], ['mod', 7], ['floordiv', 3], ['isodd'], ['id'],
@@ -45,6 +45,13 @@ def generate(rng, tier):
             items = [enc(rng.randint(0, 60)) for _ in range(rng.choice([0, 1, 5, 12, 30]))]
             trace = muxprop.single_trace(items, (rng.choice([0, 4]),))
         cases.append({'ast': ast, 'trace': trace, 'km': km, 'ctx': ctx})
+    for _ in range({'quick': 10, 'thorough': 200, 'search': 3}[tier]):
+        # scale: hundreds of groups under one parent, hundreds of live parents, long groups
+        km = rng.choice([['id'], ['mod', 300], ['mod', 257], ['mod', 2], ['comp', ['mod', 300], ['tofloat']]])
+        inner = [rng.choice([['count', 1], ['to_list'], ['scan', ['add'], enc(0), 0, None], ['last']])]
+        shape = rng.choice(['many_groups', 'many_groups', 'long', 'long2', 'many'])
+        cases.append({'ast': [['group', km, [['tap', 1]] + inner]], 'trace': muxgen.gen_trace_scale(rng, shape), 'km': km,
+                      'ctx': 'top', 'scale': True})
     return cases
 
 
